@@ -45,10 +45,15 @@ type caseID struct {
 	// Wire, when set, is the byte-level layout (names of top-level wire items in order) in which the
 	// case's header is presented; the judged object is what UnmarshalExtendedHeader makes of those bytes.
 	Wire []string `json:"wire,omitempty"`
+	// Prov, when set, says what the header object went through before the operators were applied.
+	Prov string `json:"prov,omitempty"`
 }
 
 func (c caseID) String() string {
 	s := fmt.Sprintf("%s/h%d/%s/%s", c.Chain, c.Idx, strings.Join(c.Ops, " ; "), c.Repair)
+	if c.Prov != "" {
+		s += "/object:" + c.Prov
+	}
 	if len(c.Wire) > 0 {
 		s += "/wire[" + layoutString(c.Wire) + "]"
 	}
@@ -305,15 +310,16 @@ type msgEntry struct {
 // one evaluation = one variant against every rule
 
 type evalCtx struct {
-	st         *stats
-	sh         *shared
-	trusted    []*EH // this worker's own copies of the honest chain, decoded from the wire form
-	honFP      string
-	sm         *sigMemo         // oracle-side memo of signature checks (pure function)
-	libSig     map[string]bool  // memo of the library's single-signature check, used only for the oracle/library comparison
-	noJSON     bool             // skip the two JSON paths (thorough-tier operator pairs, headers decoded from non-canonical bytes: JSON invariance is decided on the single-mutation ladder)
-	noReVerify bool             // skip Verify of the re-encoded copy (thorough-tier operator pairs)
-	summary    *strings.Builder // when set, the observable outcome is written here (determinism check, replay)
+	st          *stats
+	sh          *shared
+	trusted     []*EH // this worker's own copies of the honest chain, decoded from the wire form
+	honFP       string
+	sm          *sigMemo         // oracle-side memo of signature checks (pure function)
+	libSig      map[string]bool  // memo of the library's single-signature check, used only for the oracle/library comparison
+	noJSON      bool             // skip the two JSON paths (thorough-tier operator pairs, headers decoded from non-canonical bytes: JSON invariance is decided on the single-mutation ladder)
+	checkFields bool             // provenance stage: the binary re-encoding must also reproduce every field
+	noReVerify  bool             // skip Verify of the re-encoded copy (thorough-tier operator pairs)
+	summary     *strings.Builder // when set, the observable outcome is written here (determinism check, replay)
 }
 
 func blockKey(c *core.Commit) string {
@@ -446,6 +452,9 @@ func evaluate(ec *evalCtx, id caseID, h *EH, single *op) []violation {
 			viol("C16/reencode/"+path+"/hash-changed", fmt.Sprintf("%s: Hash() %X became %X after %s", id, origHash, gh, path), nil)
 		}
 		logf("reencode %s: validate=%s hash-equal=%v", path, gv.class, ok && bytes.Equal(gh, origHash))
+		if ec.checkFields && path == "binary" && fingerprint(g) != fp {
+			viol("C16/reencode/binary/fields-changed", fmt.Sprintf("%s: the header decoded from MarshalBinary() differs field by field from the header that was marshalled", id), nil)
+		}
 	}
 	lost := func(path, stage string, err error) {
 		st.reencClass[path+":"+stage+"-error"]++
@@ -645,6 +654,7 @@ type workItem struct {
 	full bool // full repair ladder (single mutations) or the short one (pairs)
 	wire *wireChunk
 	wa   *wireAlpha
+	prov string
 }
 
 func neighbours(ch *chain, idx int) []int {
@@ -748,6 +758,13 @@ func TestVerifC16(t *testing.T) {
 			"d2_byte_strings": hs.d2Fresh, "d2_fresh_outcomes": hs.freshObs, "decodes": hs.decodes}
 	}
 
+	var refillCases, refillValidateDiffers int64
+	for _, ch := range chains {
+		n, d := runRefill(ch, nil, func(sig, what string, replay any) { rep.Violation(sig, what, replay) })
+		refillCases += n
+		refillValidateDiffers += d
+	}
+
 	sh := &shared{distinct: map[string]struct{}{}, msgByBlk: map[string]msgEntry{}, wireSeen: map[string]struct{}{}, samples: map[string]any{}}
 	total := newStats()
 	exhaustive := true
@@ -842,6 +859,22 @@ func TestVerifC16(t *testing.T) {
 			}
 		}
 	}
+	// provenance: the core operators applied to objects that came out of UnmarshalBinary (counted with the wire group)
+	provItems := 0
+	for _, ch := range chains {
+		for idx := range ch.honest {
+			c := &mctx{ch: ch, idx: idx, nbs: neighbours(ch, idx)}
+			for _, o := range primaries(c) {
+				if !o.core && !thorough || strings.HasPrefix(o.name, "sigs.status=") {
+					continue
+				}
+				for _, pv := range []string{provDecoded, provShallow} {
+					items = append(items, workItem{ch: ch, idx: idx, ops: []op{o}, prov: pv})
+					provItems++
+				}
+			}
+		}
+	}
 	wireItems := len(items) - singles
 	var pairAlphabet = map[string]int{}
 	for _, ch := range chains {
@@ -891,7 +924,7 @@ func TestVerifC16(t *testing.T) {
 	// ---- run
 	var next int64 = -1
 	var stopped atomic.Bool
-	var doneSingles, donePairs, doneWire int64
+	var doneSingles, donePairs, doneWire, provCases int64
 	workers := vx.Workers()
 	var wg sync.WaitGroup
 	var mu sync.Mutex
@@ -927,6 +960,20 @@ func TestVerifC16(t *testing.T) {
 					honFP[hon] = hfp
 				}
 				ec := &evalCtx{st: st, sh: sh, trusted: tr, honFP: hfp, sm: sm, libSig: libSig, noJSON: thorough && len(it.ops) > 1, noReVerify: thorough && len(it.ops) > 1}
+				if it.prov != "" {
+					id := caseID{Chain: it.ch.cfg.Name, Idx: it.idx, Ops: []string{it.ops[0].name}, Repair: "none", Prov: it.prov}
+					if g, ok := provenance(hon, it.prov); !ok || !applyInPlace(g, it.ops...) {
+						st.inapplicable++
+					} else {
+						ec.checkFields = true
+						atomic.AddInt64(&provCases, 1)
+						for _, vi := range evaluate(ec, id, g, nil) {
+							rep.Violation(vi.sig, vi.what, caseArtefact(id, g, vi.extra))
+						}
+					}
+					atomic.AddInt64(&doneWire, 1)
+					continue
+				}
 				if it.wire != nil {
 					expandWireChunk(thorough, it.wa, *it.wire, func(layout []string) {
 						b, err := it.wa.assemble(layout)
@@ -1027,7 +1074,7 @@ func TestVerifC16(t *testing.T) {
 	rep.Set("operators_per_header", alphabetSizes)
 	rep.Set("pair_alphabet_per_header", pairAlphabet)
 	npairs := len(items) - singles - wireItems
-	rep.Set("work_items", map[string]any{"single_mutations": singles, "single_done": doneSingles, "wire_layout_chunks": wireItems, "wire_chunks_done": doneWire, "operator_pairs": npairs, "pairs_done": donePairs})
+	rep.Set("work_items", map[string]any{"single_mutations": singles, "single_done": doneSingles, "wire_layout_chunks_and_provenance_cases": wireItems, "wire_chunks_done": doneWire, "operator_pairs": npairs, "pairs_done": donePairs})
 	rep.Set("bounds_completed", func() string {
 		if exhaustive {
 			return fmt.Sprintf("all %d single mutations x full repair ladder, all %d non-canonical wire layouts of the honest headers and all %d operator pairs x short repair ladder", singles, total.wireCases, npairs)
@@ -1040,6 +1087,13 @@ func TestVerifC16(t *testing.T) {
 		"d1":         "per honest header: valid+dangling tag byte, valid minus last byte, DAH only, commit only, validator set only, raw header missing, truncated after header / commit / validator set, valid+truncated commit field, valid+commit tag with varint wire type (all rejected); canonical, canonical+unknown field (accepted)",
 		"d2":         "per honest header: canonical encoding; encoding with the header / commit / validator set / DAH field missing",
 		"self_check": fmt.Sprintf("%d operators evaluated twice in sequence and once in isolation (after two GC cycles) with identical observations", selfCheckOps),
+	})
+	rep.Set("object_provenance", map[string]any{
+		"operators_on_decoded_objects": "the core operators (thorough: all except status vectors) applied in place to the object returned by UnmarshalBinary(MarshalBinary(honest)) and to a shallow struct copy of it (parts replaced by fresh deep copies first); all rules, plus: the header decoded from MarshalBinary() of the mutated object equals it field by field",
+		"cases":                        provCases,
+		"refill_cases":                 refillCases,
+		"refill":                       "for neighbouring honest A != B: UnmarshalBinary(A) then UnmarshalJSON(B) into the same object, and UnmarshalJSON(A) then UnmarshalBinary(B): MarshalBinary, Hash and Height afterwards are B's",
+		"refill_validate_differs_from_B (observation, not judged)": refillValidateDiffers,
 	})
 	rep.Set("wire_encodings", map[string]any{
 		"extras_per_header": wireExtras,
@@ -1207,6 +1261,13 @@ func rebuild(ch *chain, id caseID) (*EH, error) {
 		}
 		ops = append(ops, o)
 	}
+	if id.Prov != "" {
+		g, ok := provenance(ch.honest[id.Idx], id.Prov)
+		if !ok || !applyInPlace(g, ops...) {
+			return nil, fmt.Errorf("operators do not apply to the %s object", id.Prov)
+		}
+		return g, nil
+	}
 	h, ok := applyOps(ch.honest[id.Idx], ops...)
 	if !ok {
 		return nil, fmt.Errorf("operators do not apply")
@@ -1225,11 +1286,12 @@ func replayC16(t *testing.T, rep *vx.Report, path string) {
 	var doc struct {
 		Signature string `json:"signature"`
 		Replay    struct {
-			Case      caseID    `json:"case"`
-			Other     *caseID   `json:"other"`
-			Tier      string    `json:"tier"`
-			History   *histCase `json:"history"`
-			Preceding []string  `json:"preceding"`
+			Case      caseID      `json:"case"`
+			Other     *caseID     `json:"other"`
+			Tier      string      `json:"tier"`
+			History   *histCase   `json:"history"`
+			Refill    *refillCase `json:"refill"`
+			Preceding []string    `json:"preceding"`
 		} `json:"replay"`
 	}
 	if err := json.Unmarshal(b, &doc); err != nil {
@@ -1244,6 +1306,38 @@ func replayC16(t *testing.T, rep *vx.Report, path string) {
 			}
 		}
 		return nil
+	}
+	if rc := doc.Replay.Refill; rc != nil {
+		ch := chainFor(rc.Chain)
+		if ch == nil {
+			t.Fatalf("replay: unknown chain %q", rc.Chain)
+		}
+		hits := 0
+		for run := 0; run < 5; run++ {
+			n := 0
+			runRefill(ch, rc, func(sig, what string, _ any) {
+				if run == 0 {
+					fmt.Printf("REPLAY-VIOLATION %s: %s\n", sig, what)
+				}
+				n++
+			})
+			if n > 0 {
+				hits++
+			}
+		}
+		rep.Count(5, 2, 1, 5)
+		rep.AddSample(rc)
+		rep.SetExhaustive(false)
+		if hits > 0 {
+			fmt.Printf("VERIF-NOTE REPLAY-RESULT violation reproduced %d/5: [%s]\n", hits, doc.Signature)
+			rep.Violation(doc.Signature, "reproduced from replay file", doc.Replay)
+		} else {
+			fmt.Println("VERIF-NOTE REPLAY-RESULT no violation")
+		}
+		if rep.Finish() > 0 {
+			t.Fail()
+		}
+		return
 	}
 	if hc := doc.Replay.History; hc != nil { // an ordered pair of decodes
 		ch := chainFor(hc.Chain)
@@ -1322,7 +1416,7 @@ func replayC16(t *testing.T, rep *vx.Report, path string) {
 				tr = append(tr, wireCopy(x))
 			}
 			var sb strings.Builder
-			ec := &evalCtx{st: newStats(), sh: sh, trusted: tr, honFP: fingerprint(ch.honest[id.Idx]), summary: &sb}
+			ec := &evalCtx{st: newStats(), sh: sh, trusted: tr, honFP: fingerprint(ch.honest[id.Idx]), summary: &sb, checkFields: id.Prov != ""}
 			if doc.Replay.Other != nil {
 				if o, err := rebuild(ch, *doc.Replay.Other); err == nil {
 					evaluate(&evalCtx{st: newStats(), sh: sh, trusted: tr, honFP: ec.honFP}, *doc.Replay.Other, o, nil)
